@@ -440,6 +440,19 @@ func (c *Chain) BuildTx(priv cryptotypes.PrivKey, gas uint64, msgs ...sdk.Msg) (
 
 const DefaultGas = 20_000_000
 
+// SimOnly records a signed transaction that a client asks some nodes to simulate (gas estimation) and that is never
+// delivered. The recording process does not execute it; re-executions may (record.go, op "sim").
+func (c *Chain) SimOnly(i int, msgs ...sdk.Msg) {
+	if Rec == nil || c.rec == 0 {
+		return
+	}
+	bz, err := c.BuildTx(c.Accs[i].Priv, DefaultGas, msgs...)
+	if err != nil {
+		return
+	}
+	Rec.add(c.rec-1, TraceOp{Op: "sim", Height: c.Height, Bytes: bz})
+}
+
 // Deliver signs and delivers one transaction inside the open block.
 func (c *Chain) Deliver(priv cryptotypes.PrivKey, msgs ...sdk.Msg) TxResult {
 	return c.DeliverGas(priv, DefaultGas, msgs...)
@@ -468,7 +481,7 @@ func (c *Chain) DeliverGas(priv cryptotypes.PrivKey, gas uint64, msgs ...sdk.Msg
 func (c *Chain) DeliverRaw(bz []byte) TxResult {
 	r := c.App.DeliverTx(abci.RequestDeliverTx{Tx: bz})
 	if Rec != nil && c.rec > 0 {
-		Rec.add(c.rec-1, TraceOp{Op: "tx", Height: c.Height, Bytes: bz, Digest: DigestTx(r), Info: fmt.Sprintf("code=%d gas=%d", r.Code, r.GasUsed)})
+		Rec.add(c.rec-1, TraceOp{Op: "tx", Height: c.Height, Bytes: bz, Digest: DigestTx(r), Digest2: DigestTxNoGas(r), Info: fmt.Sprintf("code=%d gas=%d", r.Code, r.GasUsed)})
 	}
 	return TxResult{Code: r.Code, Codespace: r.Codespace, Log: r.Log, GasUsed: r.GasUsed, GasWanted: r.GasWanted,
 		Data: r.Data, Events: convEvents(r.Events), TxBytes: bz}
